@@ -359,6 +359,14 @@ def run_save(col):
     m2 = store.files.get("second.vtu")
     col.add("C20.O3", "tools.save second call", "the point data of a call hold the displacements and what that call was given, nothing from an earlier call",
             m2 is not None and sorted(m2.point_data) == ["Displacements"], "tools/_save.py save: point data keys %s" % (sorted(m2.point_data) if m2 is not None else None))
+    # the user's own point data: one dictionary handed to two calls (a script that saves every load step with the same extra data)
+    mine = {"Mine": "VALUES"}
+    it.call(save, [ra, fc], dict(forces=forces, filename="third.vtu", point_data=mine))
+    it.call(save, [ra, fc], dict(filename="fourth.vtu", point_data=mine))
+    m3, m4 = store.files.get("third.vtu"), store.files.get("fourth.vtu")
+    col.add("C20.O3", "tools.save with the caller's point data, twice", "each file holds the displacements, the caller's entries and what that call was given; the second call (no forces) writes no reaction force of the first",
+            m3 is not None and m4 is not None and sorted(m3.point_data) == ["Displacements", "Mine", "Reaction Force"] and sorted(m4.point_data) == ["Displacements", "Mine"],
+            "tools/_save.py save: point data keys of the second file %s (the caller's dictionary is filled in place and handed in again)" % (sorted(m4.point_data) if m4 is not None else None))
     col.add("C20.O3", "tools.save mesh", "points, cells and cell type of the region's mesh and the given cell data are passed through", m is not None and m.points is ra.mesh.points and m.cells[0].type == "quad"
             and m.cells[0].data is ra.mesh.cells and m.cell_data == {"cd": ["X"]})
     finish_info(col, it)
